@@ -56,6 +56,9 @@ def gen_cases(tier, seed):
                     cases.append({"monitor": "exactly-once", "run": dict(base, workers=w, paths=48)})
                 cases.append({"monitor": "exactly-once", "run": dict(base, workers=2, paths=37, seed=None)})
             k += 1
+    # a seed taken from a numpy array (numpy integer)
+    cases.append({"monitor": "repeat-in-process", "run": {"engine": "standard", "process": "hem", "paths": 24, "stochastic_dates": False, "seed": 7 + seed, "seed_type": "numpy", "workers": 1}})
+    cases.append({"monitor": "repeat-in-process", "run": {"engine": "mlmc", "process": "chain", "paths": 16, "stochastic_dates": True, "seed": 9 + seed, "seed_type": "numpy", "workers": 1, "rmse": 0.6}})
     # the seed 0 is a seed like any other
     cases.append({"monitor": "repeat-fresh", "run": {"engine": "standard", "process": "hem", "paths": 24, "stochastic_dates": False, "seed": 0, "workers": 1}})
     cases.append({"monitor": "repeat-in-process", "run": {"engine": "mlmc-fixed", "process": "chain", "paths": 16, "stochastic_dates": False, "seed": 0, "workers": 1, "rmse": 0.6}})
